@@ -51,10 +51,12 @@ class AtomBase:
         return AtomBase(np.tan(self.value))
 
     def logical_and(self, other):
-        return AtomBase(self.value and other.value)
+        left, right = self.value, other.value   # both operands must exist, also when the left one decides
+        return AtomBase(left and right)
 
     def logical_or(self, other):
-        return AtomBase(self.value or other.value)
+        left, right = self.value, other.value   # both operands must exist, also when the left one decides
+        return AtomBase(left or right)
 
     def logical_not(self):
         return AtomBase(not bool(self.value))
